@@ -1,26 +1,6 @@
 // C14 — blind issuance yields a signature that satisfies the verification equation on the FULL attribute vector:
 // from the contracts of commit_with_pk (C opens), extend_commitment_with_pk (ext_value), blind_sign (issued_v),
 // unblind_sign (s = r + r') to cl_equation, for every partition of the positions into hidden and revealed ones.
-use vstd::arithmetic::div_mod::{lemma_mul_mod_noop_general, lemma_mod_twice};
-
-/// x == y (mod n)
-pub open spec fn cong(x: int, y: int, n: int) -> bool { x % n == y % n }
-
-pub proof fn lemma_cong_mul(x: int, x2: int, y: int, y2: int, n: int)   //# C14.thm.cong_mul
-    requires n > 0, cong(x, x2, n), cong(y, y2, n),
-    ensures cong(x * y, x2 * y2, n),
-{
-    lemma_mul_mod_noop_general(x, y, n);
-    lemma_mul_mod_noop_general(x2, y2, n);
-}
-
-pub proof fn lemma_cong_mod(x: int, n: int)   //# C14.thm.cong_mod
-    requires n > 0,
-    ensures cong(x % n, x, n),
-{
-    lemma_mod_twice(x, n);
-}
-
 /// the factor of position i
 pub open spec fn attr_factor(bases: Seq<Integer>, msgs: Seq<CL03Message>, n: int, i: int) -> int {
     pow_mod(bases[i]@, msgs[i].value@, n)
